@@ -4,6 +4,7 @@ import (
 	"bytes"
 	"errors"
 	"fmt"
+	"math/big"
 	"regexp"
 	"strconv"
 	"strings"
@@ -661,10 +662,14 @@ func hex2decimal(chr byte) (rune, bool) {
 
 func parseNumberLiteral(literal string) (value interface{}, err error) { //nolint:nonamedreturns
 	// TODO Is Uint okay? What about -MAX_UINT
-	value, err = strconv.ParseInt(literal, 0, 64)
-	if err == nil {
-		return value, nil
+	if integer, err := strconv.ParseInt(literal, 0, 64); err == nil {
+		if integer > 1<<53 || integer < -(1<<53) {
+			// The value of a numeric literal is a double (ES5 7.8.3).
+			return float64(integer), nil
+		}
+		return integer, nil
 	}
+	_, err = strconv.ParseInt(literal, 0, 64)
 
 	parseIntErr := err // Save this first error, just in case
 
@@ -683,15 +688,11 @@ func parseNumberLiteral(literal string) (value interface{}, err error) { //nolin
 	if errors.Is(err, strconv.ErrRange) {
 		if len(literal) > 2 && literal[0] == '0' && (literal[1] == 'X' || literal[1] == 'x') {
 			// Could just be a very large number (e.g. 0x8000000000000000)
-			var value float64
-			literal = literal[2:]
-			for _, chr := range literal {
-				digit := digitValue(chr)
-				if digit >= 16 {
-					return nil, fmt.Errorf("illegal numeric literal: %v (>= 16)", digit)
-				}
-				value = value*16 + float64(digit)
+			integer, ok := new(big.Int).SetString(literal[2:], 16)
+			if !ok {
+				return nil, errors.New("illegal numeric literal")
 			}
+			value, _ := new(big.Float).SetInt(integer).Float64()
 			return value, nil
 		}
 	}
